@@ -316,6 +316,21 @@ def case_sampler(ctx, dsc):
                    {"min": float(pts.min()), "max": float(pts.max())})
     if binary:
         ctx.check_prop("design-binary", bool(np.all((pts == 0) | (pts == 1))), dsc)
+    # other instances of the same sampler class, created with the OTHER flag for the same (d, n) in the same process,
+    # must not change what an instance returns (added after a seeded class-level cache was missed)
+    isbin = lambda a: bool(np.all((a == 0) | (a == 1)))  # noqa: E731
+    ok, r = ctx.impl_call(dsc, lambda: (_samplers()[name](binary=not binary)(d, n), _samplers()[name](binary=binary)(d, n)),
+                          signature="sampler-other-flag")
+    if ok:
+        other, again = r
+        ctx.check_prop("design-range", bool(np.all(other >= 0) and np.all(other <= 1) and np.all(again >= 0) and np.all(again <= 1)), dsc)
+        if binary:
+            ctx.check_prop("design-binary", isbin(again), dsc, {"what": "binary sampler after a continuous one of the same size"})
+        else:
+            ctx.check_prop("design-binary", isbin(other), dsc, {"what": "binary sampler after a continuous one of the same size"})
+            if not isbin(pts):
+                ctx.check_prop("design-continuous-kept", not isbin(again), dsc,
+                               {"what": "continuous sampler returns binarised points after a binary one of the same size"})
 
 
 # --------------------------------------------------------------------------------------
